@@ -236,13 +236,26 @@ def run_combo(arg):
         ice_slots = [s for a, s in names.items() if a.startswith("G") and not a.startswith("GRAIN")]
         grain_slots = [s for a, s in names.items() if a.startswith("GRAIN")]
         grid, yvals, plist = [], [], []
-        for (tg, td) in temps:
-            for icezero in (False, True):
+        # parameter variants: the base values, and - where the model gates a process by a binding-energy threshold -
+        # thresholds placed exactly on each species' binding energy (the documented gates are inclusive) and one
+        # representable step below / above it
+        import math
+
+        ebs = sorted({consts[k] for k in consts if k.startswith("eb_G")})
+        thr_fields = [f for f in ("eb_crd", "eb_uvd", "eb_h2d") if f in fields]
+        variants = [({}, tt, iz) for tt in temps for iz in (False, True)]
+        if thr_fields:
+            for e in ebs:
+                for val in (e, math.nextafter(e, 0.0), math.nextafter(e, math.inf)):
+                    variants.append(({f: val for f in thr_fields}, temps[0], False))
+        for over, (tg, td), icezero in variants:
+            if True:
+                PARAMS_V = dict(PARAMS, **over)
                 yv = [1e-6 * (i + 3) for i in range(neq)]
                 if icezero:
                     for s in ice_slots:
                         yv[s] = 0.0
-                g = {k: v for k, v in PARAMS.items() if k in fields}
+                g = {k: v for k, v in PARAMS_V.items() if k in fields}
                 g["Tgas"] = tg
                 if "Tdust" in fields:
                     g["Tdust"] = td
@@ -251,7 +264,7 @@ def run_combo(arg):
                         raise HarnessError(f"{label}: no harness value for NaunetData field {fld}")
                 grid.append(g)
                 yvals.append(yv)
-                p = dict(PARAMS)
+                p = dict(PARAMS_V)
                 p.update(Tgas=tg, Tdust=td if "Tdust" in fields else tg)
                 p["zeta"] = PARAMS["zeta_cr"] if "zeta_cr" in fields else PARAMS["zeta"]
                 p["zism"] = consts.get("zism", 1.3e-17)
